@@ -140,9 +140,9 @@ def render(case):
 
 
 # ------------------------------------------------------------- bash driver
-# One long-lived bash per worker process evaluates each case in a fresh
-# subshell (no state can leak: variables die with the subshell); if anything
-# goes wrong with the pipe protocol the case is re-run in a one-shot bash.
+# One long-lived bash per worker process evaluates the cases (process creation
+# is by far the dominant cost on a loaded machine); a failing case is re-run
+# in a one-shot bash.
 _BASH = {'proc': None}
 _ENV = {'HOME': HOME, 'PATH': '/usr/bin:/bin'}
 
@@ -154,7 +154,12 @@ def _oneshot(body, scratch):
         stderr=subprocess.PIPE, cwd=scratch)
 
 
-def _run_bash(body, scratch):
+def _run_bash(body, scratch, names):
+    """Evaluate `body` in the long-lived bash, at top level (no process is
+    forked).  Everything a case can define - the function and the variables
+    named in `names` - is unset first.  `set -e/-u` failures kill that shell:
+    then (or on any protocol problem) the case is re-run in a one-shot bash
+    which gives the authoritative exit status and stderr."""
     try:
         proc = _BASH['proc']
         if proc is None or proc.poll() is not None or \
@@ -169,8 +174,12 @@ def _run_bash(body, scratch):
             import atexit
             atexit.register(proc.kill)
         errf = os.path.join(scratch, f'c41-err-{os.getpid()}.txt')
-        cmd = (f"(\n{body}) </dev/null 2>'{errf}'; "
-               "printf '\\0C41END%s\\0\\n' \"$?\"\n")
+        cmd = (
+            f"exec 2>'{errf}'\n"
+            'unset -f cylc__job__inst__user_env\n'
+            'unset ' + ' '.join(sorted(set(NAMES) | set(names))) + '\n'
+            + body +
+            "printf '\\0C41END0\\0\\n'\n")
         proc.stdin.write(cmd.encode('utf-8'))
         proc.stdin.flush()
         buf = b''
@@ -181,16 +190,16 @@ def _run_bash(body, scratch):
                 break
             chunk = os.read(fd, 65536)
             if not chunk:
-                raise EOFError('bash died')
+                raise EOFError('bash exited')
             buf += chunk
-        rc = int(buf[end + 7:-2])
         with open(errf, 'rb') as f:
             err = f.read()
-        return SimpleNamespace(returncode=rc, stdout=buf[:end], stderr=err)
+        return SimpleNamespace(returncode=0, stdout=buf[:end], stderr=err)
     except Exception:
         if _BASH['proc'] is not None:
             try:
                 _BASH['proc'].kill()
+                _BASH['proc'].wait()
             except Exception:
                 pass
             _BASH['proc'] = None
@@ -228,7 +237,10 @@ def check_case(case, ctx: Ctx) -> CaseResult:
         'while read -r n; do if [[ -v $n ]]; then '
         'printf \'%s=%s\\0\' "$n" "${!n}"; fi; '
         f"done < '{fpath}.names'\n")
-    proc = _run_bash(body, ctx.scratch)
+    for nm in env:
+        if not re.fullmatch(r'[A-Za-z_][A-Za-z0-9_]*', nm):
+            raise RuntimeError(f'harness: illegal variable name {nm!r}')
+    proc = _run_bash(body, ctx.scratch, list(env))
     classes = set()
     has_tilde = any(p[0] == 'tilde' for v in case['vars'] for p in v['parts'])
     has_ref = any(p[0] == 'ref' for v in case['vars'] for p in v['parts'])
